@@ -300,6 +300,7 @@ def classify_vmdk_lines(lines):
     extent, an extent naming a path."""
     unsafe = set()
     ctype = None
+    later_types = []
     extents = 0
     for raw in lines:
         line = raw.strip()
@@ -311,8 +312,11 @@ def classify_vmdk_lines(lines):
         first = low.split(' ')[0]
         if '=' in line and ' ' not in line.split('=')[0]:
             key, _, val = line.partition('=')
-            if key.lower() == 'createtype' and ctype is None:
-                ctype = val
+            if key.lower() == 'createtype':
+                if ctype is None:
+                    ctype = val
+                else:
+                    later_types.append(val)
             continue
         if first in ('rw', 'rdonly', 'noaccess'):
             extents += 1
@@ -331,6 +335,10 @@ def classify_vmdk_lines(lines):
             unsafe.add('?type')
         else:
             unsafe.add('create_type')
+    elif any(t.lower() not in ok_types for t in later_types):
+        # the first createType line (the one qemu reads) is fine, a repeated
+        # one is not: refusing is as defensible as accepting
+        unsafe.add('?type')
     if extents == 0:
         unsafe.add('no_extent')
     return unsafe
